@@ -140,7 +140,23 @@ def hostile(rng):
     return vals
 
 
+class Wrapped:
+    """thorough tier: a hostile value inside a container (materialised afresh for every call)"""
+
+    def __init__(self, kind, v):
+        self.kind, self.v = kind, v
+
+
 def materialise(v):
+    if isinstance(v, Wrapped):
+        x = materialise(v.v)
+        if v.kind == "list":
+            return [1, x]
+        if v.kind == "dict":
+            return {"a": x, "k": x}
+        if v.kind == "tuple":
+            return (x, "7")
+        return [[x]]
     if isinstance(v, str) and v == "ITER":
         return iter([1, "x"])
     if isinstance(v, str) and v == "GEN":
@@ -197,6 +213,9 @@ def main():
             continue
         st = ns["STATE"]
         sample = hv
+        if thorough:
+            sample = hv + [("%s-in-%s" % (name, kind), Wrapped(kind, v)) for name, v in hv for kind in ("list", "dict", "tuple", "nested")
+                           if not name.startswith(("cyclic", "deep", "'x'*10000", "'9'*500"))]
         for name, v in sample:
             uses = [("field", lambda: ns["C"](x=materialise(v)), False),
                     ("field-collect", lambda: ns["CO"](x=materialise(v), y="bad" if rng.random() < 0.3 else 1), False),
@@ -211,8 +230,6 @@ def main():
             for use, fn, has_body in uses:
                 if use.startswith("type") and not isinstance(ns["T"], LogicalType):
                     continue        # an unconstrained builtin is not a utype type: T(x) would be Python's own constructor
-                if use == "field-from" and isinstance(v, dict) and any(not isinstance(k, str) for k in v):
-                    continue        # top-level keys of a data class are strings (statement)
                 n += 1
                 r = call(fn, st)
                 records.append({"id": "c04-%d" % n, "ann": ann, "use": use, "input": name, "r": r})
@@ -239,8 +256,8 @@ def main():
         ck.violation(key, t[2], x)
     ck.rule = ("cases = 40 annotations (builtins, stdlib, Enum, generics, unions, constrained / lax / logical types, nested data classes, "
                "abstract collections, Any) x 7 uses (field, field with collect_errors, __from__, parameter, parameter with *args/**kwargs "
-               "and collect_errors, bare type, return annotation) x the hostile catalogue (95 values; 45 sampled per annotation in the quick "
-               "tier); distinct_nontrivial = distinct (annotation, use, input, outcome class)")
+               "and collect_errors, bare type, return annotation) x the hostile catalogue (95 values; in the thorough tier each of them also "
+               "inside a list, a dict, a tuple and a nested list); distinct_nontrivial = distinct (annotation, use, input, outcome class)")
     ck.trusted = ["TLC 1.8", "wall-clock watchdog (2 s per call, SIGALRM raising a BaseException)", "the recording body / __validate__ counter generated by the harness"]
     ck.assumptions = ["termination of the real code is decided by the watchdog on the executions tried (and by TLC on the loop model)",
                       "string keys at the top level of a data class (as the statement says)"]
